@@ -22,8 +22,10 @@ CLAIM = dict(
          "fder = 2 form; every run extracts the calculator table from the live classes and proves that each documented "
          "Fermi-sea entry is the integration-by-parts image of its Fermi-surface partner (derivative index appended last, "
          "same output axes including swapaxes(1,2), same sign, same sub-calculator coefficient).  _partial: agreement of "
-         "the DISCRETISED integrals is convergence, not algebra - checked on the real code only (oracle, 3 % of the "
-         "tensor norm on FD-smoothed 12^3-24^3 grids; a sign or axis error is an O(1) discrepancy).",
+         "the DISCRETISED integrals is convergence, not algebra - checked on the real code only (oracle, 3-4 % of the "
+         "tensor norm (nonlinear Drude 5-8 %) on FD-smoothed 12^3-24^3 grids with a convergence-based verdict: a pair above "
+         "the tolerance is re-run on refined grids and fails only if the discrepancy does not converge away; a sign or axis "
+         "error is an O(1) discrepancy that stays).",
     note="Trusted: Lean kernel + Mathlib; the harness (probing of the calculators, model generators, tolerances); numpy/FFT. "
          "The formula-level content of each Formula class (which band quantity, which own indices) is a hand table, tied "
          "to the code by the finite-difference correspondence (DerX[..., d] = d_d X) and by the oracle.",
@@ -39,11 +41,17 @@ TRUSTED = [
     "DerMorb, InvMass, Der3E are the k-derivatives of Omega, Spin, Morb_Hpm, velocity, InvMass with the derivative index "
     "LAST (finite-difference correspondence on the real code)",
     "Hall_classic sea/surface and NLDrude_Fermider2 are compared by the oracle only (their relation needs the "
-    "antisymmetrisation / full symmetry of the tensors, which the index calculus does not express)",
+    "antisymmetrisation / full symmetry of the tensors, which the index calculus does not express); the f'' form is "
+    "compared on tight-binding models only (a box-confined k.p band would need > 40^3 points)",
+    "SystemKP wrappers: checked on the real code that Ham/derHam/der2Ham/der3Ham (analytic or finite-difference, every "
+    "subset of supplied derivatives, cartesian and reduced k convention) fold k into the box and equal the exact "
+    "derivative of the polynomial model at the folded point",
 ]
 RULE = ("pairs X_FermiSea / X_FermiSurf of calculators.static run on low-symmetry two-band tight-binding models (randomised "
-        "Chiral / Haldane-type with random Hermitian perturbation and random spin matrices) and on a two-band k.p model, "
-        "Fermi-Dirac smoother of width >= 3 dE, grids 12^3 (quick) to 24^3; non-trivial = tensor norm above 1e-8 of its "
+        "Chiral / Haldane-type with random Hermitian perturbation and random spin matrices, gap >= 2 eV) and on non-parabolic "
+        "(quartic + cubic + mixed terms) one- and two-band k.p models with analytic derHam/der2Ham/der3Ham supplied in every "
+        "subset and both k conventions, Fermi levels keeping the occupied region inside the box, "
+        "Fermi-Dirac smoother of width 24 dE, grids 12^3 (quick) to 28^3 (refinement); non-trivial = tensor norm above 1e-8 of its "
         "natural scale and, for rank-2 tensors, not symmetric (so that an axis swap is visible); distinct = distinct "
         "(pair, model parameters, grid)")
 
